@@ -193,3 +193,59 @@ func VerifC15_ReopenPolicy() {
 	verifAssert(len(waits) == tr.opens, "one wait per attempt")
 	verifReach("end")
 }
+
+func init() {
+	verifHarnesses["VerifC15_RepeatedOutages"] = VerifC15_RepeatedOutages
+}
+
+// verifPolicyMonitor is the default policy with event reporting.
+type verifPolicyMonitor struct {
+	BaseFTransportMonitor
+	events chan string
+}
+
+func (m *verifPolicyMonitor) OnClosedUncleanly(cause error) (bool, time.Duration) {
+	m.events <- "unclean"
+	return m.BaseFTransportMonitor.OnClosedUncleanly(cause)
+}
+func (m *verifPolicyMonitor) OnReopenFailed(prev uint, wait time.Duration) (bool, time.Duration) {
+	m.events <- "reopen-failed"
+	return m.BaseFTransportMonitor.OnReopenFailed(prev, wait)
+}
+func (m *verifPolicyMonitor) OnReopenSucceeded() { m.events <- "reopened" }
+func (m *verifPolicyMonitor) OnClosedCleanly()   { m.events <- "clean" }
+
+// (d) several outages under a bounded policy: every outage gets the full
+// budget of reopen attempts again ("reopens as often as the monitor policy allows").
+func VerifC15_RepeatedOutages() {
+	pipe := newVerifPipe()
+	ft := NewAdapterTransport(pipe)
+	budget := uint(1 + verifChoice(2))
+	mon := &verifPolicyMonitor{BaseFTransportMonitor{MaxReopenAttempts: budget, InitialWait: 0, MaxWait: 0}, make(chan string, 32)}
+	ft.SetMonitor(mon)
+	verifAssert(ft.Open() == nil, "open")
+	outages := 2 + verifParam()
+	for i := 0; i < outages; i++ {
+		// the first `refused` reopen attempts of this outage are refused, the next one succeeds
+		refused := verifChoice(int(budget) + 1)
+		pipe.failOpens = refused
+		pipe.hangUp(errors.New("verif: connection reset"))
+		verifAssert(<-mon.events == "unclean", "every outage is notified")
+		for j := 0; j < refused; j++ {
+			verifAssert(<-mon.events == "reopen-failed", "a refused attempt is reported")
+		}
+		if refused < int(budget) {
+			verifAssert(<-mon.events == "reopened", "an attempt within the budget of THIS outage succeeds")
+			verifAssert(ft.IsOpen(), "open again")
+			if i > 0 && refused > 0 {
+				verifReach("later-outage-with-refusals")
+			}
+		} else {
+			verifReach("budget-exhausted")
+			verifAssert(!ft.IsOpen(), "closed for good once the budget of this outage is used up")
+			verifReach("end")
+			return
+		}
+	}
+	verifReach("end")
+}
